@@ -46,7 +46,7 @@ static void vtouch(const void *addr, long size, int wr)
    if (!recording) return;
    for (i = nregs - 1; i >= 0; i--) {
       vreg *g = &regs[i];
-      if (a >= g->base - g->zlo && a + size <= g->base + g->n * g->esz + g->zhi) {
+      if (a >= g->base - g->zlo && a < g->base + g->n * g->esz + g->zhi) {      /* attributed by its first byte */
          long off = (long)(a - g->base), lo, hi;
          lo = off >= 0 ? off / g->esz : -((-off + g->esz - 1) / g->esz);
          off += size - 1;
